@@ -269,6 +269,30 @@ class Store:
             return
         self.cons.append(lin)
         self._propagate()
+        self._width_implication(lin)
+
+    def _width_implication(self, lin):
+        """a bound on the width of the numeral of a non-negative value is a bound on the value:
+        len(str(n)) > k  <=>  n >= 10**k   and   len(str(n)) <= k  <=>  n <= 10**k - 1   (beyond the minimum width)"""
+        wo = self.__dict__.get('width_of')
+        if not wo or len(lin.t) != 1:
+            return
+        (sym, k), = list(lin.t)
+        if sym not in wo or k not in (1, -1):
+            return
+        val, base, minw = wo[sym]
+        lo_v = self.lo(val)
+        if lo_v is None or lo_v < 0:
+            return
+        c = lin.c
+        if k == 1:
+            m = -c                      # width >= m
+            if m > max(minw, 1) and m <= 40:
+                self.assume_ge0(val - base ** (m - 1))
+        else:
+            m = c                       # width <= m
+            if 1 <= m <= 40:
+                self.assume_ge0(Lin.const(base ** m - 1) - val)
 
     def assume_eq0(self, lin):
         lin = self.canon(lin)
